@@ -134,7 +134,7 @@ def run(tier):
     progs = rnd.sample(sk, 60) + gen.random_programs(50, R.seed + 5, FEATURES, chk=True)
   else:
     sk3 = [p for p in gen.skeletons(3, chk=True) if p.name.count('>') == 2]
-    progs = sk + rnd.sample(sk3, 500) + gen.random_programs(500, R.seed + 5, FEATURES, chk=True)
+    progs = sk + rnd.sample(sk3, 200) + gen.random_programs(250, R.seed + 5, FEATURES, chk=True)
   progs += [gen.Prog(n, s, {'extra'}) for n, s in EXTRA]
   mr = random.Random(R.seed + 1)
 
